@@ -11,7 +11,15 @@ BU_NAMES = ("BIT_UNIT",)
 
 
 def is_bu(e):
-    return e[0] == "assoc" and e[1] in BU_NAMES
+    """the bit width of a storage word: Self::BIT_UNIT, W::BITS (also `u64::BITS as usize`) or `size_of::<W>() * 8`"""
+    e = strip_casts(e)
+    if e[0] == "assoc" and e[1] in BU_NAMES + ("BITS",):
+        return True
+    if is_bin(e, "Mul"):
+        for x, y in ((e[2], e[3]), (e[3], e[2])):
+            if is_call(x, "size_of") and not x[3] and y == ("int", 8):
+                return True
+    return False
 
 
 def match_mask_call(e):
@@ -111,6 +119,28 @@ def find_mask_events(b, evs):
             out.append(MaskEvent(e.loc, e.args[0], "mod2n", e.args[1], "mod2n(%s, %s)" % (show(e.args[0]), show(e.args[1]))))
     ptrs = [e for e in evs if e.kind == "ptr" and e.via and e.via[-1] in ("get_mut", "last_mut")]
     writes = [e for e in evs if e.kind == "write"]
+    # the canonicaliser written out (or spliced in from a helper that took its place): for every word i of the storage,
+    # `data[i] &= mask(min(n - min(n, i * BU), BU))` - a truncation of the whole object to n bits, like mod2n(obj, n)
+    for w in writes:
+        if w.how != "call:bitand_assign" or len(w.value) != 1 or w.index is None or w.index[0] != "iv":
+            continue
+        width = match_mask_call(w.value[0])
+        if width is None or not is_call(width, "min") or len(width[3]) != 2:
+            continue
+        n = None
+        for x, y in ((width[3][0], width[3][1]), (width[3][1], width[3][0])):
+            if is_bu(y) and is_call(x, "saturating_sub") and len(x[3]) == 2 and is_bin(x[3][1], "Mul") \
+                    and any(a == w.index and is_bu(c) for a, c in ((x[3][1][2], x[3][1][3]), (x[3][1][3], x[3][1][2]))):
+                n = x[3][0]
+        if n is None:
+            continue
+        src = b.iter_source(w.index[1])
+        whole = src[0] == "agg" and src[1].startswith("Range") and len(src[3]) == 2 and src[3][0] == ("int", 0) and (
+            src[3][1][:1] == ("cparam",) or (is_call(src[3][1], "len") and len(src[3][1][3]) == 1
+                                             and (strip_casts(src[3][1][3][0]) == ("field", w.obj, "data") or strip_casts(src[3][1][3][0]) == w.obj)))
+        if whole:
+            out.append(MaskEvent(w.loc, w.obj, "mod2n", n, "every word i of %s &= mask(min(%s - min(%s, i * BU), BU))" % (show(w.obj), show(n), show(n))))
+            w.is_mask = True
     for p in ptrs:
         for w in writes:
             if not any(x == p.call for x in walk(w.target)):
@@ -512,6 +542,22 @@ def check_k6(crate, b, writes, aggs, lens, dstores):
             if b.local_name(l) == src[1]:
                 fam = mir.ty_family(b.local_ty(l))
     if fam not in ("Bvf", "Bvd", "Bv"):
+        # a plain integer slice: its accessor zero-extends past the end of the slice, so with length = len(slice) * BITS every
+        # bit below the length is a bit of the slice and everything above is zero
+        sty = None
+        if src[0] == "param":
+            for l in range(1, b.arg_count + 1):
+                if b.local_name(l) == src[1]:
+                    sty = re.sub(r"/#\d+", "", re.sub(r"'\S+ ?", "", b.local_ty(l)))
+        m = re.match(r"^&\[(\w+)\]$", sty or "")
+        if m:
+            L = canon_len = a.length
+            from . import defs
+            okL = is_bin(L, "Mul") and any(is_call(x, "len") and len(x[3]) == 1 and x[3][0] == src and defs._bits_of(y, m.group(1))
+                                           for x, y in ((L[2], L[3]), (L[3], L[2])))
+            if okL:
+                return Writer(b, "K6", True, "whole words of the slice `%s` (its accessor zero-extends), length = len * BITS" % show(src))
+            return Writer(b, "K6", False, "copies the words of the slice %s but stores length %s" % (show(src), show(L)))
         return None
     L = a.length
     name = show(src)
@@ -562,6 +608,24 @@ def check_realloc(b, writes, aggs, dstores, lens):
     if v[0] != "var" or len(v) < 3:
         return None
     init = b.init_expr(v[2])
+    if init is not None and is_call(init, ("with_capacity", "new")) and "Vec" in (init[2] or "") and writes \
+            and all(w.obj == v and w.index is None for w in writes):
+        # let mut n = Vec::with_capacity(k); n.extend_from_slice(&self.data[..j]); n.resize(k, 0): the old words first, in
+        # order, then zeros (an empty vector grows only at its end)
+        seen_copy = False
+        for w in sorted(writes, key=lambda w: w.loc):
+            src = w.value[0] if w.value else None
+            if w.how in ("call:extend_from_slice", "call:extend", "call:extend_from_within") and src is not None and not seen_copy \
+                    and _prefix_of(mir.strip_casts(src[3][0] if is_call(src, ("iter", "copied", "cloned", "into_iter")) and src[3] else src),
+                                   lambda x: x == sd):
+                seen_copy = True
+            elif w.how == "call:resize" and len(w.value) == 2 and w.value[1] == ("int", 0):
+                pass
+            else:
+                return None
+        if seen_copy:
+            return Writer(b, "REALLOC", True, "the new storage is the old words (a prefix of them) followed by zeros")
+        return None
     if init is None or not storage.is_zero_data(init):
         return None
     for w in writes:
@@ -678,6 +742,33 @@ def check_k5_conjuncts(crate, b, kk, evs, writes, aggs, dstores, lens):
             v = (w.value[0] if w.value else ("unknown", "no operand")) if w.how.startswith("call:") else w.value
             if not mir.contains(v, lambda x: x[0] == "un" and x[1] == "Not" and mir.contains(x, lambda y: is_call(y, "mask"))):
                 return False, "%s: destination bits are not cleared with `& !(mask(l) << i)`" % name
+        return True, ""
+    if name == "try_from:uint":
+        # every stored word is a zero-extending piece of the integer: the integer itself (word 0 of a wide enough word type)
+        # or the integer shifted right by a word offset with a shift that yields 0 once the offset reaches the integer's
+        # width. A shift whose amount wraps modulo the width (wrapping_shr, overflowing_shr, rotate_right) stores copies
+        # of the low words at and above the integer's width: stray bits above the length.
+        arg = ("param", b.local_name(1))
+        for w in writes:
+            v = w.value if w.how == "assign" else (w.value[0] if w.value else None)
+            if v is None:
+                return None, "try_from: word stored through %s: not decided" % w.how
+            v = mir.strip_casts(v)
+            while is_call(v, ("cast_from", "cast_to", "from", "into")) and len(v[3]) == 1:
+                v = mir.strip_casts(v[3][0])
+            if v == arg:
+                if w.index not in (("int", 0),):
+                    return False, "try_from: the unshifted integer is stored into word `%s` (only word 0 may take it)" % show(w.index)
+                continue
+            bad = [x[1] for x in walk(v) if is_call(x, ("wrapping_shr", "overflowing_shr", "rotate_right", "rotate_left", "wrapping_shl"))]
+            if bad:
+                return False, ("try_from: word `%s` is produced by %s(), whose amount wraps modulo the integer's width: words at or above "
+                               "that width receive copies of the integer's low bits (stray bits above the length)"
+                               % ("<each word of the array>" if w.index is None or w.index[0] == "iter" else show(w.index)[:30], bad[0]))
+            zero_fill = (is_call(v, "unwrap_or") and len(v[3]) == 2 and v[3][1] == ("int", 0) and is_call(v[3][0], "checked_shr")) \
+                or is_call(v, "unbounded_shr") or v == ("int", 0)
+            if not zero_fill:
+                return None, "try_from: stored word `%s` is not one of the zero-extending forms this rule reads: not decided" % show(v)[:80]
         return True, ""
     if name in ("append", "prepend") and fam == "Bvd":
         arg = ("param", b.local_name(2))
